@@ -10,17 +10,6 @@ import (
 
 func init() { Register("C15", checkC15) }
 
-// c15GuardsHook is replaced by the SSA guard/effects rules (R1 signed index, R2 who-writes, R3 complement) after merge.
-var c15GuardsHook = func(c *Ctx) {
-	signedIndexRule(c, "R1.signedindex", "band", func(recv, meth string) bool {
-		switch meth {
-		case "GetUplinkChannel", "GetDownlinkChannel", "DisableUplinkChannelIndex", "EnableUplinkChannelIndex", "GetTXPowerOffset":
-			return true
-		}
-		return false
-	})
-}
-
 type encodable struct {
 	typ   string
 	field string
@@ -36,7 +25,7 @@ func checkC15(c *Ctx) {
 	r.Rule("R1.signedindex", "slice/array index by a signed int parameter in a channel accessor has dominating lower and upper guards")
 	r.Rule("R5.cflist", "the CFList a freshly configured band offers is nil, or the exact enabled-channel masks: ceil(n/16) <= 6 masks, bit i of mask k = channel 16k+i enabled")
 	r.Rule("R4.encodable", "every band constant the MAC layer must carry is accepted by the corresponding MAC encoder and decodes back to the same value")
-	c15GuardsHook(c)
+	c15Guards(c)
 	bands, err := c.Bands()
 	if err != nil {
 		r.Unknown("R4.encodable", "band.GetConfig", "", "band configurations evaluable", err.Error())
